@@ -506,6 +506,9 @@ pub fn pattern_family() -> Vec<String> {
     for s in ["caf\u{e9}", "\u{e9}", "\u{e9}\u{e8}", "\u{2603}x", "x\u{2603}", "\u{1D11E}a\u{1D11F}", "na\u{ef}ve \u{2603}\u{2602} \u{1F600}\u{1F601}", "\u{7ff}\u{800}\u{ffff}\u{10000}\u{10ffff}"] {
         v.push(s.into());
     }
+    // patterns longer than 65535 bytes (positions that do not fit two bytes)
+    v.push((0..65_600usize).map(|i| (b'a' + (i * 7 % 26) as u8) as char).collect());
+    v.push("xy".repeat(66_000));
     // every 2-byte character U+0080..U+07FF in one pattern (1920 chars, 3840 bytes)
     v.push((0x80u32..0x800).filter_map(char::from_u32).collect());
     v
@@ -530,7 +533,7 @@ fn keys_around(p: &[u8]) -> Vec<Vec<u8>> {
     let mut pp = p.to_vec();
     pp.extend_from_slice(p);
     out.insert(pp);
-    let step = (p.len() / 120).max(1);
+    let step = if p.len() > 10_000 { p.len() / 12 } else { (p.len() / 120).max(1) };
     for i in (0..=p.len()).step_by(step) {
         out.insert(p[..i].to_vec());
         for b in [0x00u8, b'a', 0x7f, 0x80, 0xa9, 0xff, if i < p.len() { p[i] } else { b'z' }] {
@@ -651,7 +654,7 @@ pub fn plan(tier: Tier) -> Plan {
     let cap = if thorough { 10 } else { 7 };
     let leaves = Arc::new(leaves_with3(thorough));
     let nl_full = leaves_full().len();
-    p.rule = format!("leaves: AlwaysMatch, Str(s) s in {{'',a,ab,ba}}, Subsequence(p) p in {{'',a,ab,aa}}, every table DFA with 1..2 states (thorough: also 3 states at depth <= 1) over classes {{a, not a}} with EVERY sound hint assignment (can_match >= truth, will_always_match <= truth): {} leaves; expressions: every tree of depth <= 1 over all leaves, every unary operator over those (depth 2), every binary operator over unary-wrapped leaves, and every tree with <= 3 leaves and depth <= 3 over a core leaf set; each built from the REAL StartsWith/Complement/Union/Intersection types (type-erased leaves) and compared, for every byte string over {{a,b,c}} of length <= min(n+1,{}) (n = states of the explicit product DFA of the same expression; thorough also bytes 00/80/ff near the root), with the spec: is_match equal; can_match false only if no accepting continuation exists; will_always_match true only if every continuation accepts; finite family of {} long / non-ASCII patterns (1..94 distinct bytes, all 128 ASCII bytes, 600..3840-byte patterns, 2/3/4-byte characters) for Str and Subsequence alone and under StartsWith/Complement/Union against their definitions on the keys one edit around the pattern, hints checked along each key, and through Set::search. non-trivial = expressions containing at least one combinator", nl_full, cap, pattern_family().len());
+    p.rule = format!("leaves: AlwaysMatch, Str(s) s in {{'',a,ab,ba}}, Subsequence(p) p in {{'',a,ab,aa}}, every table DFA with 1..2 states (thorough: also 3 states at depth <= 1) over classes {{a, not a}} with EVERY sound hint assignment (can_match >= truth, will_always_match <= truth): {} leaves; expressions: every tree of depth <= 1 over all leaves, every unary operator over those (depth 2), every binary operator over unary-wrapped leaves, and every tree with <= 3 leaves and depth <= 3 over a core leaf set; each built from the REAL StartsWith/Complement/Union/Intersection types (type-erased leaves) and compared, for every byte string over {{a,b,c}} of length <= min(n+1,{}) (n = states of the explicit product DFA of the same expression; thorough also bytes 00/80/ff near the root), with the spec: is_match equal; can_match false only if no accepting continuation exists; will_always_match true only if every continuation accepts; finite family of {} long / non-ASCII patterns (1..94 distinct bytes, all 128 ASCII bytes, 600..3840-byte and 65600 / 132000-byte patterns, 2/3/4-byte characters) for Str and Subsequence alone and under StartsWith/Complement/Union against their definitions on the keys one edit around the pattern, hints checked along each key, and through Set::search. non-trivial = expressions containing at least one combinator", nl_full, cap, pattern_family().len());
     p.assumptions = vec![
         "the combinator state types are opaque, so strings (not implementation states) are enumerated, up to the pumping bound of the specification DFA".into(),
         "weak-but-sound hints (e.g. Str::can_match after a mismatch) are accepted".into(),
